@@ -149,6 +149,17 @@ pub fn program_json(g: &Generated) -> Value {
     })
 }
 
+/// C18: every generated program is run once per entry, on one layout.
+const C18_BATCHES: [BatchSpec; 7] = [
+    BatchSpec::Default,
+    BatchSpec::Single,
+    BatchSpec::Fixed(1),
+    BatchSpec::Fixed(5),
+    BatchSpec::Fixed(1024),
+    BatchSpec::Adaptive(1, 50),
+    BatchSpec::Adaptive(1024, 2),
+];
+
 fn classes_for(prop: &str) -> &'static [Class] {
     match prop {
         "C01" => &[Class::Result, Class::Agg, Class::Join, Class::Fan, Class::Round, Class::Sink],
@@ -159,6 +170,9 @@ fn classes_for(prop: &str) -> &'static [Class] {
         "C09" => &[Class::Fan],
         "C16" => &[Class::Order],
         "C04" => &[Class::Sink],
+        // C18: the same program under every batch mode; every result class must agree with the
+        // (batch independent) reference
+        "C18" => &[Class::Result, Class::Agg, Class::Join, Class::Fan, Class::Round, Class::Sink],
         _ => &[],
     }
 }
@@ -191,6 +205,8 @@ pub fn run(args: &Args, report: &mut Report) {
     let mut rng = Rng::new(args.seed).fork(hash_str(&prop)).fork(args.shard);
     let (cases, nconf, max_input) = match (args.thorough, prop.as_str()) {
         (false, "C16") => (20, 3, 600),
+        (false, "C18") => (5, 4, 400),
+        (true, "C18") => (40, 4, 1500),
         (false, _) => (16, 4, 400),
         (true, "C16") => (160, 4, 3000),
         (true, _) => (130, 6, 3000),
@@ -236,15 +252,21 @@ pub fn run(args: &Args, report: &mut Report) {
             }
             layouts = layouts.iter().flat_map(|l| std::iter::repeat(l.clone()).take(n)).collect();
         }
+        if prop == "C18" {
+            let l = layouts[crng.usize(0, layouts.len() - 1)].clone();
+            layouts = vec![l; C18_BATCHES.len()];
+        }
         let phash = hash_str(&format!("{:?}", g.program.stmts)) ^ hash_str(&format!("{:?}", g.program.inputs.iter().map(|i| i.len()).collect::<Vec<_>>()));
         for (ci, layout) in layouts.iter().enumerate() {
             let mut batch = if ci == 0 { g.program.batch } else { random_batch(&mut crng) };
             // finding F8: iterate deadlocks with many tiny batches; those configurations belong
             // to C04's dedicated workload
-            if has_iterate(&g.program) && matches!(batch, BatchSpec::Single | BatchSpec::Fixed(1..=7)) {
+            if prop == "C18" {
+                batch = C18_BATCHES[ci];
+            } else if has_iterate(&g.program) && matches!(batch, BatchSpec::Single | BatchSpec::Fixed(1..=7)) {
                 batch = BatchSpec::Fixed(64);
             }
-            let policy = if ci == 0 { Policy::none() } else { random_policy(&mut crng) };
+            let policy = if ci == 0 || (prop == "C18" && ci % 2 == 0) { Policy::none() } else { random_policy(&mut crng) };
             let pname = policy.name.clone();
             let resume = case as u64 + 1;
             let witness = json!({"engine":"jobgen","property":prop,"case":case,"shard":args.shard,"seed":args.seed,
@@ -258,7 +280,7 @@ pub fn run(args: &Args, report: &mut Report) {
                     let mut d = w.clone();
                     d["error"] = json!(format!("job did not return: {end:?}"));
                     d["census"] = crate::run::census_json(census);
-                    let verdict = if *end == JobEnd::Deadlocked && prop2 == "C04" { Verdict::Violated } else { Verdict::Inconclusive };
+                    let verdict = if *end == JobEnd::Deadlocked && (prop2 == "C04" || prop2 == "C18") { Verdict::Violated } else { Verdict::Inconclusive };
                     r.case(verdict, None, || d);
                 });
             }
